@@ -61,11 +61,27 @@ def nested_pause():
     return st.builds(build, st.sampled_from([1, 2]), dl, d, d, prio, prio, d, d, d, st.just(3), dl, prio)
 
 
+def same_instant_cluster():
+    """Three or four events of different assets due at one instant, one asset cancelled (or paused) while they are queued,
+    then further events scheduled for that same instant, then a run over it."""
+    pr = st.sampled_from([2, 5, 9, 11, 4.5, 6, 10, 3])
+
+    def build(d, p1, p2, p3, p4, p5, which, how, later):
+        ops = [['s', 1, d, p1, []], ['s', 2, d, p2, []], ['s', 3, d, p3, []], ['s', 9, d, p4, []],
+               [how, [1, 2, 3, 9][which]],
+               ['s', 0, d, p5, []], ['s', [2, 3, 9, 1][which], d, p1, []]]
+        if how == 'p' and later:
+            ops.append(['u', [1, 2, 3, 9][which]])
+        return ops + [['run', d + 0.5]]
+    return st.builds(build, st.sampled_from([0, 0.5, 1, 2]), pr, pr, pr, pr, pr, st.integers(0, 3),
+                     st.sampled_from(['c', 'c', 'p']), st.booleans())
+
+
 def cases(max_ops, prologue=None, with_past=True, min_ops=8):
     # a final run flushes what is still queued so that late ties are decided too
     epilogue = st.sampled_from([[], [['run', 2]], [['run', 5]], [['run', 1], ['run', 4]]])
     single = top_op(with_past).map(lambda o: [o])
-    chunk = st.one_of(*([single] * 12 + [nested_pause()]))
+    chunk = st.one_of(*([single] * 12 + [nested_pause(), same_instant_cluster()]))
     return st.builds(
         lambda w, chunks, ep: {'weights': w, 'ops': (prologue or []) + [o for c in chunks for o in c] + ep},
         st.lists(st.sampled_from(WEIGHTS), min_size=1, max_size=6),
